@@ -6,6 +6,15 @@ from pyvc.core import OptV, to_real
 from .lib import (EOM_RISE, FALL, PJT, RISE, T, clock, fget, fnone, max_dur, max_dur_none, min_dur,
                   modbw, modbw_none, valid_channel, valid_channel_f)
 
+from pyvc.core import I as _I, uf as _uf  # noqa: E402
+VDUR = _uf("VDUR", _I, _I, _I)    # spec function: duration d rounded up to the next multiple of clock c
+
+
+def vdur_def(c, d):
+    m = d % c
+    return VDUR(c, d) == z3.If(m == 0, d, d + c - m)
+
+
 def VC(c):
     return ("valid_channel", valid_channel_f(T(c.self)))
 
@@ -36,8 +45,10 @@ contract(BC, "Channel.validate_duration", props=("C01", "C02", "C18"),
              ("next_multiple", z3.And(T(c.duration) <= T(c.res), T(c.res) < T(c.duration) + clock(T(c.self)))),
              ("at_least_min", T(c.res) >= min_dur(T(c.self))),
              ("identity_on_multiples", z3.Implies(T(c.duration) % clock(T(c.self)) == 0, T(c.res) == T(c.duration))),
+             ("is-the-rounding-function", T(c.res) == VDUR(clock(T(c.self)), T(c.duration))),
              ("at_most_max", z3.Or(max_dur_none(T(c.self)), T(c.res) <= max_dur(T(c.self)))),
          ],
+         spec_defs=lambda c: [vdur_def(clock(T(c.self)), T(c.duration))],
          raises={"ValueError": lambda c: z3.Or(T(c.duration) < min_dur(T(c.self)),
                                                z3.And(z3.Not(max_dur_none(T(c.self))), T(c.duration) > max_dur(T(c.self))))},
          )
